@@ -147,9 +147,12 @@ class HpcSubmitter:
         try:
             blocked_jobs = []
             submitted_jobs = []
-            for group in self._cluster.config.submission_groups:
-                if not queue.is_full():
-                    self._submit_batches(queue, group, blocked_jobs, submitted_jobs)
+            # A canceled submission must never hand another batch to the HPC; the round still
+            # collects results and decides completion.
+            if not self._cluster.is_canceled():
+                for group in self._cluster.config.submission_groups:
+                    if not queue.is_full():
+                        self._submit_batches(queue, group, blocked_jobs, submitted_jobs)
 
             num_submissions = self._batch_index - starting_batch_index
             logger.info(
